@@ -497,7 +497,7 @@ func c17GenDecision(t *rapid.T) harness.Decision {
 		if m == "" {
 			m = "x"
 		}
-		return harness.Decision{Kind: "plain", Msg: m}
+		return flavoured(t, "plain", harness.Decision{Kind: "plain", Msg: m})
 	}
 	code := rapid.SampledFrom([]int{421, 450, 451, 452, 455, 499, 500, 501, 502, 503, 504, 521, 550, 551, 552, 553, 554, 555, 571, 599}).Draw(t, "code")
 	if rapid.IntRange(0, 4).Draw(t, "any_code") == 0 {
